@@ -139,7 +139,7 @@ def receive_data(sock: socket.socket, size: int) -> bytes:
                 except socket.timeout:
                     raise TimeoutError("receiving: timeout")
                 except socket.error as x:
-                    err = getattr(x, "errno", x.args[0])
+                    err = getattr(x, "errno", None)     # (an OSError without arguments has no args[0] to fall back on)
                     if err not in ERRNO_RETRIES:
                         err = ConnectionClosedError("receiving: connection lost: " + str(x))
                         err.partialData = data  # store the message that was received until now
@@ -163,7 +163,7 @@ def receive_data(sock: socket.socket, size: int) -> bytes:
             except socket.timeout:
                 raise TimeoutError("receiving: timeout")
             except socket.error as x:
-                err = getattr(x, "errno", x.args[0])
+                err = getattr(x, "errno", None)     # (an OSError without arguments has no args[0] to fall back on)
                 if err not in ERRNO_RETRIES:
                     err = ConnectionClosedError("receiving: connection lost: " + str(x))
                     err.partialData = data  # store the message that was received until now
@@ -199,7 +199,7 @@ def send_data(sock: socket.socket, data: bytes) -> None:
             except socket.timeout:
                 raise TimeoutError("sending: timeout")
             except socket.error as x:
-                err = getattr(x, "errno", x.args[0])
+                err = getattr(x, "errno", None)     # (an OSError without arguments has no args[0] to fall back on)
                 if err not in ERRNO_RETRIES:
                     raise ConnectionClosedError("sending: connection lost: " + str(x))
                 time.sleep(next(delays))  # a slight delay to wait before retrying
